@@ -47,6 +47,8 @@ MkInput(ptr, recv, n, bad, ret, addr, second, single, ek, eaddr) ==
               [] second = "inherited" -> <<F("tick", "mut", 1, 0, "none", 393216)>>
               (* an #[address] written on the impl block is not an address of its functions *)
               [] second = "blockaddr" -> <<F("h", "mut", 1, 0, "none", None)>>
+              (* an address attribute with two arguments is no address *)
+              [] second = "twoaddr" -> <<[F("h", "mut", 1, 0, "none", None) EXCEPT !.xattrs = <<"address(0x401000, 0x4010F0)">>]>>
               [] OTHER -> <<>>
       impls == (IF useBase THEN <<Impl("B", <<F("tick", "mut", 1, 0, "none", 458752)>>)>> ELSE <<>>)
                \o <<[Impl("T", <<f1>> \o f2) EXCEPT !.battrs = IF second = "blockaddr" THEN <<"address(0x70000)">> ELSE <<>>]>>
